@@ -10,6 +10,7 @@ from pyvc.sorts import (STR, BOOL, INT, PYV, HKEY, OBJ, SET, MAP, LIST, OPT, Str
                         KVs, hkey, cls_of, CLS, HKeyS)
 from spec import json_spec as J
 from contracts.shapes import FIELDS as SH
+from pyvc.libfs import K_FILE as _K_FILE
 
 M = 'file_builder.cache.Cache.'
 And, Or, Not, Implies, If, ForAll = z3.And, z3.Or, z3.Not, z3.Implies, z3.If, z3.ForAll
@@ -100,7 +101,10 @@ CONTRACTS.append(with_locks(Contract(
         ('recorded-as-built', c.new(BF_, c.self) == z3.Store(c.old(BF_, c.self), c.filename, True),
          ['C02', 'C03'])],
     raises=[ExcSpec('RuntimeError', when=lambda c: OO.is_some(c.old(NCF_, c.self)[c.filename]),
-                    modifies=NOTHING)],
+                    modifies=NOTHING),
+            # rely condition, as for start_subbuild: another thread may have claimed the path
+            # since the caller's unlocked early check
+            ExcSpec('RuntimeError', when=None, exact=False, modifies=NOTHING)],
     modifies=lambda c: [(F_, c.self), (NCF_, c.self), (BF_, c.self)])))
 
 CONTRACTS.append(with_locks(Contract(
@@ -172,7 +176,12 @@ CONTRACTS.append(with_locks(Contract(
         c.old(SB_, c.self), hkey(c.subbuild_key), OSB.some(OSI.none)))],
     raises=[ExcSpec('RuntimeError',
                     when=lambda c: OSB.is_some(c.old(SB_, c.self)[hkey(c.subbuild_key)]),
-                    modifies=NOTHING)],
+                    modifies=NOTHING),
+            # rely condition (the one point where the sequential model admits another thread):
+            # the claim is taken under the lock, the caller's early check was not -- a second
+            # thread may have claimed the key in between, so a caller must cope with a refusal
+            # here even though its own check passed (C08: "also under concurrent calls")
+            ExcSpec('RuntimeError', when=None, exact=False, modifies=NOTHING)],
     modifies=lambda c: [(SB_, c.self)])))
 CONTRACTS.append(with_locks(Contract(
     M + 'finish_subbuild', props=['C08'],
@@ -269,7 +278,8 @@ CONTRACTS.append(Contract(
     M + 'read_immutable', props=['C15', 'C16'],
     params={'filename': STR}, returns=CACHE,
     ensures=lambda c: no_effect(c) + [
-        ('was-a-regular-file', c.gold('fs_kind')[c.filename] == z3.Const('Kfile', c.gold('fs_kind').sort().range()) if False else z3.BoolVal(True))],
+        # gzip.open of a directory raises IsADirectoryError, of a missing path FileNotFoundError
+        ('was-a-regular-file', c.gold('fs_kind')[c.filename] == _K_FILE, ['C15', 'C16', 'C12'])],
     raises=[ExcSpec('Exception', ensures=no_effect, modifies=NOTHING)],
     modifies=NOTHING,
     lemmas=['lookup_sanitized', 'sanitized_eqdom'],
